@@ -43,7 +43,7 @@ impl GitScenario {
                 }
             }
             if self.with_commands {
-                cmd_files.push(CmdFile { target: d.clone(), command: "build".into(), rel: WorldSpec::default_cmd_rel(d, "build"), exec: true });
+                cmd_files.push(CmdFile { target: d.clone(), command: "build".into(), rel: WorldSpec::default_cmd_rel(d, "build"), exec: true, broken: false });
             }
             targets.push(t);
         }
